@@ -45,13 +45,13 @@ Local Open Scope R_scope.
    inner point, which scalar multiplies what, which block of the point goes to
    which block operand, linear shortcuts -- is proved. *)
 Theorem derivative_is_frechet :
-  forall (af : nat -> list R -> list R) (ad : nat -> list R -> list R -> list R) (adm arn : nat -> space),
+  forall (af : nat -> list R -> list R) (ad : nat -> list R -> list R -> list R) (adm arn : nat -> space) (rv : bool),
   (forall k x, length x = sdim (adm k) ->
      hdiff (sdim (adm k)) (sdim (arn k)) (af k) x (ad k x) /\
      blin (sdim (adm k)) (sdim (arn k)) (ad k x)) ->
   forall (e : @oexpr R) (x : list R),
-  let P := PR af ad adm arn in
-  wt P e = true -> length x = sdim (dom P e) -> deriv_ok P e x = true -> regular af ad adm arn e x ->
+  let P := PR af ad adm arn rv in
+  wt P e = true -> length x = sdim (dom P e) -> deriv_ok P e x = true -> regular af ad adm arn rv e x ->
   let D := derivative P e x in
   hdiff (sdim (dom P e)) (sdim (ran P e)) (eval P e) x (eval P D) /\
   blin (sdim (dom P e)) (sdim (ran P e)) (eval P D) /\
@@ -72,13 +72,13 @@ Proof. exact linmap_blin. Qed.
 Print Assumptions linear_maps_are_bounded.
 
 Theorem derivative_is_frechet_linear_premise :
-  forall (af : nat -> list R -> list R) (ad : nat -> list R -> list R -> list R) (adm arn : nat -> space),
+  forall (af : nat -> list R -> list R) (ad : nat -> list R -> list R -> list R) (adm arn : nat -> space) (rv : bool),
   (forall k x, length x = sdim (adm k) ->
      hdiff (sdim (adm k)) (sdim (arn k)) (af k) x (ad k x) /\
      linmap (sdim (adm k)) (sdim (arn k)) (ad k x)) ->
   forall (e : @oexpr R) (x : list R),
-  let P := PR af ad adm arn in
-  wt P e = true -> length x = sdim (dom P e) -> deriv_ok P e x = true -> regular af ad adm arn e x ->
+  let P := PR af ad adm arn rv in
+  wt P e = true -> length x = sdim (dom P e) -> deriv_ok P e x = true -> regular af ad adm arn rv e x ->
   let D := derivative P e x in
   hdiff (sdim (dom P e)) (sdim (ran P e)) (eval P e) x (eval P D) /\
   blin (sdim (dom P e)) (sdim (ran P e)) (eval P D) /\
@@ -90,13 +90,13 @@ Print Assumptions derivative_is_frechet_linear_premise.
    direction d is the limit of the central difference quotient
    (op(x + h d) - op(x - h d)) / (2h), entry by entry. *)
 Theorem derivative_is_central_difference_limit :
-  forall (af : nat -> list R -> list R) (ad : nat -> list R -> list R -> list R) (adm arn : nat -> space),
+  forall (af : nat -> list R -> list R) (ad : nat -> list R -> list R -> list R) (adm arn : nat -> space) (rv : bool),
   (forall k x, length x = sdim (adm k) ->
      hdiff (sdim (adm k)) (sdim (arn k)) (af k) x (ad k x) /\
      blin (sdim (adm k)) (sdim (arn k)) (ad k x)) ->
   forall (e : @oexpr R) (x : list R),
-  let P := PR af ad adm arn in
-  wt P e = true -> length x = sdim (dom P e) -> deriv_ok P e x = true -> regular af ad adm arn e x ->
+  let P := PR af ad adm arn rv in
+  wt P e = true -> length x = sdim (dom P e) -> deriv_ok P e x = true -> regular af ad adm arn rv e x ->
   forall d, length d = sdim (dom P e) -> forall i, (i < sdim (ran P e))%nat ->
   forall eps, 0 < eps -> exists delta, 0 < delta /\
     forall h, h <> 0 -> Rabs h < delta ->
@@ -109,39 +109,39 @@ Print Assumptions derivative_is_central_difference_limit.
    linear IS a bounded linear map (so the shortcut `return self` is justified),
    and whatever object derivative(x) returns for it acts exactly like e. *)
 Theorem flagged_linear_is_linear :
-  forall (af : nat -> list R -> list R) (ad : nat -> list R -> list R -> list R) (adm arn : nat -> space),
+  forall (af : nat -> list R -> list R) (ad : nat -> list R -> list R -> list R) (adm arn : nat -> space) (rv : bool),
   (forall k x, length x = sdim (adm k) ->
      hdiff (sdim (adm k)) (sdim (arn k)) (af k) x (ad k x) /\
      blin (sdim (adm k)) (sdim (arn k)) (ad k x)) ->
   forall (e : @oexpr R),
-  let P := PR af ad adm arn in
+  let P := PR af ad adm arn rv in
   is_lin e = true -> wt P e = true -> blin (sdim (dom P e)) (sdim (ran P e)) (eval P e).
 Proof. exact lin_blin. Qed.
 Print Assumptions flagged_linear_is_linear.
 
 Theorem linear_is_own_derivative :
-  forall (af : nat -> list R -> list R) (ad : nat -> list R -> list R -> list R) (adm arn : nat -> space),
+  forall (af : nat -> list R -> list R) (ad : nat -> list R -> list R -> list R) (adm arn : nat -> space) (rv : bool),
   (forall k x, length x = sdim (adm k) ->
      hdiff (sdim (adm k)) (sdim (arn k)) (af k) x (ad k x) /\
      blin (sdim (adm k)) (sdim (arn k)) (ad k x)) ->
   forall (e : @oexpr R) (x : list R),
-  let P := PR af ad adm arn in
+  let P := PR af ad adm arn rv in
   is_lin e = true -> wt P e = true -> length x = sdim (dom P e) ->
-  deriv_ok P e x = true -> regular af ad adm arn e x ->
+  deriv_ok P e x = true -> regular af ad adm arn rv e x ->
   forall d, length d = sdim (dom P e) -> eval P (derivative P e x) d = eval P e d.
 Proof. exact lin_deriv_self. Qed.
 Print Assumptions linear_is_own_derivative.
 
 (* "Affine ones have the derivative of their linear part" *)
 Theorem affine_has_derivative_of_linear_part :
-  forall (af : nat -> list R -> list R) (ad : nat -> list R -> list R -> list R) (adm arn : nat -> space),
+  forall (af : nat -> list R -> list R) (ad : nat -> list R -> list R -> list R) (adm arn : nat -> space) (rv : bool),
   (forall k x, length x = sdim (adm k) ->
      hdiff (sdim (adm k)) (sdim (arn k)) (af k) x (ad k x) /\
      blin (sdim (adm k)) (sdim (arn k)) (ad k x)) ->
   forall (a : @oexpr R) (v x : list R),
-  let P := PR af ad adm arn in
+  let P := PR af ad adm arn rv in
   is_lin a = true -> wt P (OVecSum a v) = true -> length x = sdim (dom P a) ->
-  deriv_ok P a x = true -> regular af ad adm arn a x ->
+  deriv_ok P a x = true -> regular af ad adm arn rv a x ->
   forall d, length d = sdim (dom P a) -> eval P (derivative P (OVecSum a v) x) d = eval P a d.
 Proof. exact affine_deriv. Qed.
 Print Assumptions affine_has_derivative_of_linear_part.
@@ -160,25 +160,25 @@ Print Assumptions frechet_derivative_unique.
    ufunc's domain of differentiability; same for gradient_factory (ufunc
    functionals on the real line). *)
 Theorem ufunc_derivative_table_correct :
-  forall (af : nat -> list R -> list R) (ad : nat -> list R -> list R -> list R) (adm arn : nat -> space),
+  forall (af : nat -> list R -> list R) (ad : nat -> list R -> list R -> list R) (adm arn : nat -> space) (rv : bool),
   forall (f : ufn) (e : uex), ufunc_deriv f = Some e ->
   forall a : R, uregular f a ->
-  derivable_pt_lim (usem (PR af ad adm arn) f) a (ueval (PR af ad adm arn) e a).
+  derivable_pt_lim (usem (PR af ad adm arn rv) f) a (ueval (PR af ad adm arn rv) e a).
 Proof. exact ufunc_deriv_table_sound. Qed.
 Print Assumptions ufunc_derivative_table_correct.
 
 Theorem ufunc_gradient_table_correct :
-  forall (af : nat -> list R -> list R) (ad : nat -> list R -> list R -> list R) (adm arn : nat -> space),
+  forall (af : nat -> list R -> list R) (ad : nat -> list R -> list R -> list R) (adm arn : nat -> space) (rv : bool),
   forall (f : ufn) (e : uex), ufunc_grad f = Some e ->
   forall a : R, uregular f a ->
-  derivable_pt_lim (usem (PR af ad adm arn) f) a (ueval (PR af ad adm arn) e a).
+  derivable_pt_lim (usem (PR af ad adm arn rv) f) a (ueval (PR af ad adm arn rv) e a).
 Proof. exact ufunc_grad_table_sound. Qed.
 Print Assumptions ufunc_gradient_table_correct.
 
 (* ufuncs listed in LINEAR_UFUNCS (regenerated) really are linear *)
 Theorem ufunc_linear_flag_correct :
-  forall (af : nat -> list R -> list R) (ad : nat -> list R -> list R -> list R) (adm arn : nat -> space),
-  forall f : ufn, ufunc_linear f = true -> exists c : R, forall a : R, usem (PR af ad adm arn) f a = c * a.
+  forall (af : nat -> list R -> list R) (ad : nat -> list R -> list R -> list R) (adm arn : nat -> space) (rv : bool),
+  forall f : ufn, ufunc_linear f = true -> exists c : R, forall a : R, usem (PR af ad adm arn rv) f a = c * a.
 Proof. exact ufunc_linear_scale. Qed.
 Print Assumptions ufunc_linear_flag_correct.
 
@@ -192,7 +192,7 @@ Proof. exact ex_Habs. Qed.
 
 (* ---- and the premises on (e, x) are satisfiable by a tree using every class ---- *)
 Example premises_hold :
-  let P := PR ex_af ex_ad ex_dm ex_dm in
+  let P := PR ex_af ex_ad ex_dm ex_dm false in
   wt P ex_tree = true /\ is_lin ex_tree = false /\ length [1; 2] = sdim (dom P ex_tree) /\
-  deriv_ok P ex_tree [1; 2] = true /\ regular ex_af ex_ad ex_dm ex_dm ex_tree [1; 2].
+  deriv_ok P ex_tree [1; 2] = true /\ regular ex_af ex_ad ex_dm ex_dm false ex_tree [1; 2].
 Proof. exact ex_premises. Qed.
